@@ -23,7 +23,20 @@ for name in "$@"; do
       timeout 3000 cargo test --offline -p ciphercore-base --test $t > /tmp/vs/demo2-with-$name-$t.log 2>&1
       echo "demo_with_patch[$t]_exit=$? $(grep -E '^test result' /tmp/vs/demo2-with-$name-$t.log | head -1)" >> $LOG
     done
+    if [ -f $S/demo.diff ]; then
+      filt=$(python3 -c "import json;print(json.load(open('$S/meta.json')).get('demo_filter',''))")
+      git apply $S/demo.diff || echo "demo.diff does not apply" >> $LOG
+      timeout 6000 cargo test --offline -p ciphercore-base --lib -- $filt > /tmp/vs/demo2-with-$name-diff.log 2>&1
+      echo "demo_with_patch[demo.diff:$filt]_exit=$? $(grep -E '^test result' /tmp/vs/demo2-with-$name-diff.log | head -1)" >> $LOG
+      git apply -R $S/demo.diff
+    fi
     git apply -R $S/patch.diff
+    if [ -f $S/demo.diff ]; then
+      git apply $S/demo.diff
+      timeout 6000 cargo test --offline -p ciphercore-base --lib -- $filt > /tmp/vs/demo2-without-$name-diff.log 2>&1
+      echo "demo_without_patch[demo.diff:$filt]_exit=$? $(grep -E '^test result' /tmp/vs/demo2-without-$name-diff.log | head -1)" >> $LOG
+      git apply -R $S/demo.diff
+    fi
     for d in $demos; do t=$(basename $d .rs)
       timeout 3000 cargo test --offline -p ciphercore-base --test $t > /tmp/vs/demo2-without-$name-$t.log 2>&1
       echo "demo_without_patch[$t]_exit=$? $(grep -E '^test result' /tmp/vs/demo2-without-$name-$t.log | head -1)" >> $LOG
